@@ -550,6 +550,15 @@ def gen(rng, tier):
         cases.append(_mixed_case(rng))
     for _ in range(60 if quick else 1500):
         cases.append(_rand_case(rng, big=True))
+    # tall tables whose column counts / sums cross 8- and 16-bit limits (sentinel = column sum + 1)
+    for nrow, ty in ((254, "b"), (255, "b"), (256, "b"), (300, "b"), (255, "i"), (256, "i"), (300, "i")) if quick else \
+            ((254, "b"), (255, "b"), (256, "b"), (257, "b"), (300, "b"), (600, "b"), (255, "i"), (256, "i"), (300, "i"), (66000, "i")):
+        for mcol in (2, 3):
+            cells = [[[ty, 1] for _ in range(mcol)] for _ in range(nrow)]
+            cases.append(_case([list(r) for r in cells], 1, f"tall:{ty}:complete"))
+            cells2 = [list(r) for r in cells]
+            cells2[rng.randrange(nrow)][rng.randrange(mcol)] = None
+            cases.append(_case(cells2, 1, f"tall:{ty}:one-missing"))
     if not quick:
         cases += _exhaustive()
     return cases
